@@ -350,6 +350,12 @@ def run_B(case):
     if interrupted:
         outcome, exc = "stopped", None
     vs, info = judge(seq, outcome, exc, num, k, spec, 1e-6, interrupted)
+    if outcome == "raise" and not isinstance(exc, ValueError) and info["n_inner"] == 0 and spec[0] != "scalar":
+        # the plan was refused before its first repetition for a reason other than the number of delays: one root
+        # cause ("this kind of iterable is not accepted"), reported once instead of through its consequences
+        where = _innermost_bluesky_frame(exc)
+        vs = [("iterable-delay-not-accepted", f"{type(exc).__name__}: {exc} (raised in {where}) before the first repetition; delay is a {spec[0]} of {len(spec[1])} entries")]
+        info["refused"] = f"{type(exc).__name__}@{where}"
     # documents: one event per execution that took a reading; spacing = max(delay, duration)
     if entry in ("count", "count_default"):
         ev = [d for n, d in obs.docs if n == "event"]
@@ -391,8 +397,22 @@ def run_case(case):
     vs, info = (run_A if case[0] == "A" else run_B)(case)
     out = []
     for rule, detail in vs:
-        out.append({"rule": rule, "detail": f"{_call(case)}: {detail}", "signature": _sig(rule, case), "case": _ser(case)})
+        sig = _sig(rule, case)
+        if rule == "iterable-delay-not-accepted":
+            sig = f"{rule}|{case[1]}|engine|delays={'sized' if case[4][0] in ('list', 'tuple') else 'unsized'}|{info.get('refused')}"
+        out.append({"rule": rule, "detail": f"{_call(case)}: {detail}", "signature": sig, "case": _ser(case)})
     return out, info
+
+
+def _innermost_bluesky_frame(exc):
+    name = "?"
+    tb = exc.__traceback__
+    while tb is not None:
+        fn = tb.tb_frame.f_code.co_filename
+        if "/bluesky/" in fn:
+            name = f"{fn.rsplit('/bluesky/', 1)[1]}:{tb.tb_frame.f_code.co_name}"
+        tb = tb.tb_next
+    return name
 
 
 def _call(case):
